@@ -928,6 +928,7 @@ class SSHConnection(SSHPacketHandler, asyncio.Protocol):
         self._send_blocksize = 8
         self._compressor: Optional[Compressor] = None
         self._compress_after_auth = False
+        self._delayed_compress_active = False
         self._deferred_packets: List[Tuple[int, Sequence[bytes]]] = []
         self._deferred_disconnect: Optional[Tuple[int, str, str]] = None
 
@@ -938,6 +939,7 @@ class SSHConnection(SSHPacketHandler, asyncio.Protocol):
         self._recv_macsize = 0
         self._decompressor: Optional[Decompressor] = None
         self._decompress_after_auth = False
+        self._delayed_decompress_active = False
         self._next_recv_encryption: Optional[Encryption] = None
         self._next_recv_blocksize = 0
         self._next_recv_macsize = 0
@@ -1666,7 +1668,7 @@ class SSHConnection(SSHPacketHandler, asyncio.Protocol):
 
         orig_payload = packet_data[1:-packet_data[0]]
 
-        if self._decompressor and (self._auth_complete or
+        if self._decompressor and (self._delayed_decompress_active or
                                    not self._decompress_after_auth):
             payload = self._decompressor.decompress(orig_payload)
 
@@ -1816,7 +1818,7 @@ class SSHConnection(SSHPacketHandler, asyncio.Protocol):
 
         orig_payload = Byte(pkttype) + b''.join(args)
 
-        if self._compressor and (self._auth_complete or
+        if self._compressor and (self._delayed_compress_active or
                                  not self._compress_after_auth):
             payload = self._compressor.compress(orig_payload)
 
@@ -1850,6 +1852,17 @@ class SSHConnection(SSHPacketHandler, asyncio.Protocol):
             self._send_seq = 0
         else:
             self._send_seq = (seq + 1) & 0xffffffff
+
+        if pkttype == MSG_USERAUTH_SUCCESS:
+            # Delayed compression begins with the packet which follows this
+            # one on the wire. That can be later than when authentication
+            # completed, if a key exchange was in progress at that time.
+            # What the client sends to finish that key exchange was sent
+            # before it saw this packet, so it still isn't compressed.
+            self._delayed_compress_active = True
+
+            if not self._next_recv_encryption:
+                self._delayed_decompress_active = True
 
         if self._kex_complete:
             self._rekey_bytes_sent += pktlen
@@ -2527,6 +2540,7 @@ class SSHConnection(SSHPacketHandler, asyncio.Protocol):
             self._recv_macsize = self._next_recv_macsize
             self._decompressor = self._next_decompressor
             self._decompress_after_auth = self._next_decompress_after_auth
+            self._delayed_decompress_active = self._delayed_compress_active
 
             self._next_recv_encryption = None
             self._can_recv_ext_info = True
@@ -2692,6 +2706,8 @@ class SSHConnection(SSHPacketHandler, asyncio.Protocol):
             self._auth = None
             self._auth_in_progress = False
             self._auth_complete = True
+            self._delayed_compress_active = True
+            self._delayed_decompress_active = True
             self._can_recv_ext_info = False
 
             if self._agent:
